@@ -34,6 +34,19 @@ impl Clock for HarnessClock {
     }
 }
 
+/// Special time-to-live encodings for the boundary alphabet (C17).
+pub const TTL_DURATION_MAX: u64 = u64::MAX;
+pub const TTL_U64_MAX_SECS: u64 = u64::MAX - 1;
+pub const TTL_ONE_NANO: u64 = u64::MAX - 2;
+pub fn ttl_of(ms: u64) -> Duration {
+    match ms {
+        TTL_DURATION_MAX => Duration::MAX,
+        TTL_U64_MAX_SECS => Duration::from_secs(u64::MAX),
+        TTL_ONE_NANO => Duration::from_nanos(1),
+        ms => Duration::from_millis(ms),
+    }
+}
+
 pub fn ms_of(t: SystemTime) -> u64 {
     t.duration_since(UNIX_EPOCH).map(|d| d.as_millis() as u64).unwrap_or(0)
 }
@@ -410,8 +423,8 @@ impl ThreadCtx {
                 catch(|| match (w, ttl_ms) {
                     (None, None) => cache.put(*k, v),
                     (Some(w), None) => cache.put_with_weight(*k, v, *w),
-                    (None, Some(t)) => cache.put_with_ttl(*k, v, Duration::from_millis(*t)),
-                    (Some(w), Some(t)) => cache.put_with_weight_and_ttl(*k, v, *w, Duration::from_millis(*t)),
+                    (None, Some(t)) => cache.put_with_ttl(*k, v, ttl_of(*t)),
+                    (Some(w), Some(t)) => cache.put_with_weight_and_ttl(*k, v, *w, ttl_of(*t)),
                 })
                 .map(|r| self.write_res(idx, mark, r))
             }
@@ -429,7 +442,7 @@ impl ThreadCtx {
                         b = b.weight(*w);
                     }
                     if let Some(t) = ttl_ms {
-                        b = b.time_to_live(Duration::from_millis(*t));
+                        b = b.time_to_live(ttl_of(*t));
                     }
                     if *remove_ttl {
                         b = b.remove_time_to_live();
